@@ -77,7 +77,11 @@ def ob_schema_routes(ctx: Ctx) -> Outcome:
     if n == 0:
         return Outcome.undecided("ast-shape", "no use of the schema argument found in the tools")
     if wits:
-        return Outcome.refuted("ast-shape", wits, count=n)
+        # a path-like schema argument must still not open anything outside the schema directories
+        from props import C19_b
+        from verif.common import shape_verdict
+
+        return shape_verdict("ast-shape", [w.what for w in wits], C19_b.probe_schema_argument, n, {"runner": "props.C19_b:probe_schema_argument", "args": {}})
     return Outcome.ok("ast-shape", count=n)
 
 
